@@ -82,7 +82,7 @@ class Likelihood:
             if self.keep_log:
                 self.by_x[k] = ll
                 self.order.append(k)
-            if self.mode in ("blobs", "blobs2"):
+            if self.mode in ("blobs", "blobs2", "blobs3"):
                 i = self._next
                 self._next += 1
                 if self.keep_log:
@@ -94,6 +94,8 @@ class Likelihood:
             return ll, float(i)
         if self.mode == "blobs2":
             return ll, float(i), 0.5 * float(i)
+        if self.mode == "blobs3":
+            return ll, float(i), 0.5 * float(i), float(i) + 0.25
         return ll
 
 
